@@ -208,7 +208,14 @@ def cases(rng, tier, shard, nshards):
                 same = rng.random() < 0.6          # mostly the same (method, n) with another order / point: near-collisions
                 hist.append([float(rng.choice([-1, 1]) * 10.0 ** rng.uniform(-2, 2)), method if same else str(rng.choice(METHODS)),
                              n if same else int(rng.integers(1, 11)), int(rng.integers(1, 11))])
-        yield dict(kind=kind, opts=_rand_opts(rng, kind), x=x, method=method, n=n, order=order, history=hist)
+        opts = _rand_opts(rng, kind)
+        assign = None
+        if rng.random() < 0.25 and opts:
+            other = _rand_opts(rng, kind)
+            # constructor options: another random configuration restricted to the keys that will all be re-assigned afterwards
+            ctor = {k: v for k, v in other.items() if k in opts}
+            assign = dict(ctor=ctor, order=[str(k) for k in rng.permutation(sorted(opts))])
+        yield dict(kind=kind, opts=opts, x=x, method=method, n=n, order=order, history=hist, assign=assign)
 
 
 def _ulp(v):
@@ -254,7 +261,20 @@ def run_case(case, ctx):
         ctx.count('integer_typed_x_cases')
     method, n, order = case['method'], case['n'], case['order']
     try:
-        gen = cls(**opts)
+        assign = case.get('assign')
+        if assign:
+            # the options reach the generator through attribute assignment on an existing (and already used) object instead of
+            # the constructor: first built with the options in assign['ctor'], used once, then every option is assigned
+            ctx.count('options_assigned_after_construction')
+            gen = cls(**{k: v for k, v in assign['ctor'].items()})
+            try:
+                list(gen(np.asarray(0.7), method, n, order))
+            except Exception:
+                pass
+            for k in assign['order']:
+                setattr(gen, k, opts[k])
+        else:
+            gen = cls(**opts)
         hist = case.get('history')
         if hist:
             # the same generator instance has already produced sequences for other points / methods / n / orders (a
